@@ -36,7 +36,8 @@ pub struct Case {
     pub order: usize,
     /// number of stray subdirectories (0..=2) plus .kismet_temp if bit 2 set
     pub strays: u8,
-    /// 0: raw_cache::prune; 1: plain::Cache::set with the trigger firing; 2: sharded::Cache::put into a shard
+    /// 0: raw_cache::prune; 1: plain::Cache::set with the trigger firing; 2: sharded::Cache::put into a shard;
+    /// 10 + k: prune whose k-th unlink fails with EIO (the pass is interrupted), followed by a clean prune
     pub via: u8,
 }
 
@@ -293,6 +294,42 @@ pub fn run_case(case: &Case, rep: &mut Report) -> Vec<(String, String)> {
                 }
             }
         }
+        v if v >= 10 => {
+            // an interrupted pass followed by a clean one must still add up to one Second Chance pass
+            let k = (v - 10) as i64;
+            let dir = sc.path("cache");
+            materialise(&dir, case, base);
+            let before = world::snapshot(&dir);
+            let cap = case.capacity;
+            let ctl = std::sync::Arc::new(crate::props::c03::NthKindFault::new(shim::Kind::Unlink, k, libc::EIO));
+            shim::set_controller(Some(ctl));
+            let d2 = dir.clone();
+            let (r1, t1) = run::as_participant(0, 0, move || kismet_cache::raw_cache::prune(d2, cap));
+            shim::set_controller(None);
+            rep.transitions += t1.len() as u64;
+            let injected = t1.iter().any(|e| e.injected);
+            match r1 {
+                Err(p) => bad.push(("panic".into(), format!("interrupted prune panicked: {}", p))),
+                Ok(Ok(_)) if injected => bad.push(("fault-masked".into(), "prune reported success although an unlink failed with EIO".into())),
+                _ => {}
+            }
+            let d3 = dir.clone();
+            let (r2, t2) = run::as_participant(0, 1, move || kismet_cache::raw_cache::prune(d3, cap));
+            rep.transitions += t2.len() as u64;
+            let after = world::snapshot(&dir);
+            match r2 {
+                Err(p) => bad.push(("panic".into(), format!("second prune panicked: {}", p))),
+                Ok(Err(e)) => bad.push(("error".into(), format!("second prune failed: {}", e))),
+                Ok(Ok(_)) => {
+                    if injected {
+                        rep.count("interrupted_passes", 1);
+                    }
+                    for (s, m) in judge_delta(&case.types, cap, &before, &after, &|_| false, false) {
+                        bad.push((format!("interrupted-{}", s), format!("after a pass interrupted at its unlink #{} and a clean pass: {}", k, m)));
+                    }
+                }
+            }
+        }
         1 => {
             // through plain::Cache::set with the trigger scripted to fire
             let dir = sc.path("cache");
@@ -437,7 +474,8 @@ pub fn run(tier: Tier, shard: Shard, rep: &mut Report) {
         "populations of key-named files with rank in 3 values x read mark in {{atime<mtime, atime==mtime, atime>mtime}}: \
          (a) every rank-sorted sequence of n <= {} files with every order of marks inside equal ranks, listed sorted and \
          reverse-sorted, x capacity 0..=n+1 x stray-subdirectory configurations, through raw_cache::prune; every 7th \
-         case also through plain::Cache::set and sharded::Cache::put with the trigger scripted to fire; (b) every \
+         case also through plain::Cache::set and sharded::Cache::put with the trigger scripted to fire; for n <= 4 every pass is \
+         also interrupted at each of its unlinks (EIO) and followed by a clean pass, the two together judged as one pass; (b) every \
          multiset of {}..={} files x capacity 0..=n+1 x both listing orders through prune. Oracle: classical clock queue \
          under some tie order (constructed, then brute force for n<=8), exact survivor metadata, subdirectories untouched, \
          return value. Non-trivial = n > capacity and (a tie or a read mark present).",
@@ -465,6 +503,13 @@ pub fn run(tier: Tier, shard: Shard, rep: &mut Report) {
                     let strays = (no % 7) as u8; // 0..6: cycles through subdir configs incl. .kismet_temp
                     let case = Case { types: types.clone(), capacity, order, strays, via: 0 };
                     record(&case, rep);
+                    if n <= 4 && capacity < n && order == 0 {
+                        for k in 0..(n - capacity) {
+                            let mut ci = case.clone();
+                            ci.via = 10 + k as u8;
+                            record(&ci, rep);
+                        }
+                    }
                     if no % 7 == 3 {
                         let mut c1 = case.clone();
                         c1.via = 1;
